@@ -472,6 +472,12 @@ class Check:
                 self.coverage[key] = int(self.coverage[key])
         if not self.coverage["samples"]:
             self.coverage["samples"] = ["(no cases run)"]
+        # a run in which proof obligations failed (or were not reached) does not make a proof-level claim: the counts
+        # are kept under other names so that the file still describes what happened
+        if self.coverage.get("discharged") in (None, 0) or self.coverage.get("discharged") != self.coverage.get("obligations"):
+            self.coverage["proof_obligations_total"] = self.coverage.pop("obligations", None)
+            self.coverage["proof_obligations_discharged"] = self.coverage.pop("discharged", None)
+            self.coverage["explanation"] = "proof obligations were not all discharged in this run (see violations); the counts above are of the testing side only"
         tmp = os.path.join(VERIF, "evidence", ".%s.json.tmp" % self.prop_id)
         with open(tmp, "w", encoding="utf-8") as f:
             json.dump(ev, f, indent=1, default=str)
@@ -486,8 +492,8 @@ class Check:
                 self.prop_id,
                 self.tier,
                 self.seed,
-                self.coverage.get("obligations"),
-                self.coverage.get("discharged"),
+                self.coverage.get("obligations", self.coverage.get("proof_obligations_total")),
+                self.coverage.get("discharged", self.coverage.get("proof_obligations_discharged")),
                 self.coverage["evaluations"],
                 len(self.violations),
                 wall,
